@@ -273,6 +273,36 @@ def registration(P, R):
     R.floor('C15.MPT.2', 3)
 
 
+def list_defaults(P, R, rule='C15.GRD.4'):
+    """A registered default goes only into a list that never held a value.  The list has no presence flag of its own:
+    the mechanism is the vector's capacity (`size`), which a list emptied by a file keeps while its length (`used`)
+    is 0 - so the default fill is guarded by the capacity, not by the length.  And the helper that installs it makes
+    the destination equal to the source whatever the source holds (an empty source empties the destination)."""
+    n = 0
+    for name in ('conf_register_string_list', 'conf_register_string_list_sv'):
+        f = P.fn(name)
+        if f is None:
+            continue
+        for c in f.calls('string_vector_copy'):
+            a = c.ev['args']
+            if not (len(a) == 2 and on_path(a[0], 'value') and on_path(a[1], 'def_value')):
+                continue
+            n += 1
+            gs = f.guards(c.bid)
+            by_len = [g for g in gs if on_path(g[0], 'value') and is_field(g[0], 'used')]
+            by_cap = [g for g in gs if on_path(g[0], 'value') and is_field(g[0], 'size') and g[1] == '==' and const_of(g[2]) == 0]
+            R.ob(rule, bool(by_cap) and not by_len, c, '%s installs the default only into a list that never held a value (capacity test %s, length test %s)' % (name, bool(by_cap), bool(by_len)), key='default-fill:%s' % name)
+    cp = P.fn('string_vector_copy')
+    if cp is not None and len(cp.params) == 2:
+        dst = cp.params[0]
+        def sets_used(t):
+            return t.ev['k'] == 'store' and is_field(t.ev['lhs'], 'used') and is_var(t.ev['lhs'].get('base'), dst) and t.ev.get('op') == '='
+        p = cp.path_avoiding(None, sets_used, from_entry=True)
+        n += 1
+        R.ob(rule, p is None, cp, 'string_vector_copy gives the destination the source\'s length on every path (also for an empty source)', key='copy-total')
+    R.floor(rule, 2)
+
+
 def load_merges(P, R, rule='C15.MPT.3'):
     """A successful load always installs what it read: in conf_read every path through the setjmp()==0 branch that
     ends normally calls the merge of the scratch tree into the live one (a load that "decides" the file need not be
@@ -361,6 +391,11 @@ def old_value_lifetime(P, R, rule='C15.UAF.1'):
 
 
 def run(P, R, tier):
+    list_defaults(P, R)
+    # "unregistered leftovers are gone / omitted settings revert": both walk the nodes the parser marked present
+    from . import c16
+    from ..report import Remap
+    c16.duplicates(P, Remap(R, {'C16.MPT.1': 'C15.MPT.5'}))
     load_merges(P, R)
     removal_reports_change(P, R)
     old_value_lifetime(P, R)
